@@ -426,6 +426,15 @@ class Report:
     def check(self, cond: bool, rule, where, construct, detail_ok="", detail_bad="", **kw):
         return self.add(rule, where, construct, OK if cond else VIOLATION, detail_ok if cond else (detail_bad or detail_ok), **kw)
 
+    def shape(self, ok: bool, wrong: bool, rule, where, construct, detail_ok="", detail_wrong="", detail_unknown="", **kw):
+        """Three-way verdict for recognisers: a listed correct form is OK, a recognised WRONG form is a VIOLATION,
+        anything else is UNDECIDED (unknown idiom: exit 2, never an alarm)."""
+        if ok:
+            return self.add(rule, where, construct, OK, detail_ok, **kw)
+        if wrong:
+            return self.add(rule, where, construct, VIOLATION, detail_wrong or detail_ok, **kw)
+        return self.add(rule, where, construct, UNDECIDED, "code shape not recognised - " + (detail_unknown or detail_wrong or detail_ok), **kw)
+
     def expect(self, cond: bool, rule, where, construct, detail_ok="", detail_bad="", **kw):
         """Shape recogniser: a match is OK, a mismatch is UNDECIDED (unknown idiom), never a violation."""
         return self.add(rule, where, construct, OK if cond else UNDECIDED, detail_ok if cond else ("code shape not recognised - " + (detail_bad or detail_ok)), **kw)
